@@ -1231,3 +1231,30 @@ P.not_decided.append("TRACE current_Ks reshuffle in reb_simulation_remove_partic
                      "index arithmetic i*new_N+j+counter is nonlinear in N (not attempted with quantifiers); instances N=2,3 "
                      "are executed exhaustively instead (tasks remove_particle.trace.during_bs_step.N*), add in BS mode not covered")
 P.not_decided.append("MERCURIUS add during the IAS15 part (mode 1: dcrit/encounter_map growth) and TRACE add during the BS part")
+
+
+# =====================================================================================================
+# the lookup table stays a well-formed cache across reb_simulation_remove_all_particles: either the table it had (a live block of
+# exactly N_allocated_lookup entries, N_lookup <= N_allocated_lookup) or no table with BOTH counters 0 -- the rebuild
+# (reb_update_particle_lookup_table) reallocates only when N_allocated_lookup is too small and otherwise writes through the pointer
+# =====================================================================================================
+def lookup_wf_after_remove_all(null_table):
+    def task(v):
+        s = mk_lookup(v, mk_sim(v), null_table=null_table)
+        v.call("reb_simulation_remove_all_particles", s.rp)
+        r = s.r
+        t = table_obj(s)
+        if t is None:
+            v.prove("no_table_means_no_capacity", z3.And(r.N_allocated_lookup == 0, r.N_lookup == 0))
+        else:
+            fr = t.freed if z3.is_expr(t.freed) else z3.BoolVal(bool(t.freed))
+            v.prove("table_is_live_block_of_N_allocated_lookup", z3.And(as_int(t.length) == r.N_allocated_lookup, z3.Not(fr)))
+            v.prove("N_lookup_within_capacity", z3.And(0 <= r.N_lookup, r.N_lookup <= r.N_allocated_lookup))
+            p = r.particle_lookup_table
+            v.prove("table_points_to_block_start", z3.And(as_int(p.path[-1]) == 0, z3.Not(as_bool_null(p))))
+    return task
+
+
+from engine.api import Task as _Task
+P.tasks.append(_Task(P, "remove_all.lookup_table_stays_well_formed.with_table", "reb_simulation_remove_all_particles", lookup_wf_after_remove_all(False)))
+P.tasks.append(_Task(P, "remove_all.lookup_table_stays_well_formed.without_table", "reb_simulation_remove_all_particles", lookup_wf_after_remove_all(True)))
